@@ -1,5 +1,6 @@
 """C15 — schema constraint inference equals the conjunction of recognised invariants."""
 import concurrent.futures
+import os
 import re
 from typing import Any, Dict, List, Optional, Sequence, Tuple
 
@@ -218,6 +219,13 @@ class ModelCheck:
         self.chk.violation(key, dict(model=self.name, text=self.text, **detail))
 
     def run(self) -> None:
+        try:
+            self._run()
+        except Exception as err:  # a bug of the check itself is never a verdict
+            self.chk.harness_error(
+                f"check failed on {self.name}: {err!r}\n{harness.format_exc(err, 6)}")
+
+    def _run(self) -> None:
         chk = self.chk
         loaded, error, exc = driver.load_inprocess(self.text)
         if loaded is None:
@@ -579,8 +587,10 @@ def worker(args) -> Dict[str, Any]:
 
 def main(argv) -> int:
     chk = harness.Check("C15", "exploration", RULE, argv)
-    n_models = chk.pick(500, 20000)
+    n_models = chk.pick(500, 15000)
     n_shards = chk.pick(6, 8)
+    if os.environ.get("VF_MAX_WORKERS", "").isdigit():  # politeness on a shared box
+        n_shards = max(1, min(n_shards, int(os.environ["VF_MAX_WORKERS"])))
     with concurrent.futures.ProcessPoolExecutor(max_workers=n_shards) as pool:
         jobs = [pool.submit(worker, (list(argv), s, n_shards, n_models)) for s in range(n_shards)]
         for job in jobs:
@@ -597,11 +607,12 @@ def main(argv) -> int:
         "property is conditional and must not be inferred"
     )
     chk.assume("pattern lists are compared as sets of pattern strings (duplicates ignored)")
-    chk.require_min("models_checked", chk.pick(250, 8000))
-    chk.require_min("slots_compared", chk.pick(1500, 50000))
-    chk.require_min("len_slots_with_interacting_bounds", chk.pick(150, 5000))
-    chk.require_min("pattern_slots_with_recognised_calls", chk.pick(60, 2000))
-    chk.require_min("set_slots_with_interacting_memberships", chk.pick(20, 600))
-    chk.require_min("invariants_unrecognised_shape", chk.pick(150, 5000))
-    chk.require_min("tightening_steps_checked", chk.pick(200, 6000))
+    chk.require_min("pinned_models_run", len(PINNED))
+    chk.require_min("models_checked", chk.pick(200, 4000))
+    chk.require_min("slots_compared", chk.pick(1500, 30000))
+    chk.require_min("len_slots_with_interacting_bounds", chk.pick(300, 6000))
+    chk.require_min("pattern_slots_with_recognised_calls", chk.pick(150, 3000))
+    chk.require_min("set_slots_with_interacting_memberships", chk.pick(60, 1200))
+    chk.require_min("invariants_unrecognised_shape", chk.pick(300, 6000))
+    chk.require_min("tightening_steps_checked", chk.pick(400, 8000))
     return chk.finish()
